@@ -358,9 +358,11 @@ def check_search_evaluated(repo: Repo, rep: Report, tier: str) -> None:
             retrieve = not m.endswith("Find")
             for qlevel in levels + ["BOGUS", None]:
                 for mask in range(1 << len(levels)):
-                    for extra in [None] + levels:
-                        if extra is not None and len(attr[extra]) < 2:
-                            continue
+                    with_req = [lv for lv in levels if len(attr[lv]) >= 2]
+                    extra_sets = [()] + [(lv,) for lv in with_req]
+                    if tier == "thorough":
+                        extra_sets = [tuple(lv for k, lv in enumerate(with_req) if m2 >> k & 1) for m2 in range(1 << len(with_req))]
+                    for extras in extra_sets:
                         for as_list in (False, True):
                             vals = {}
                             if qlevel is not None:
@@ -374,16 +376,18 @@ def check_search_evaluated(repo: Repo, rep: Report, tier: str) -> None:
                                 vals[kw] = v
                             if as_list and not any(isinstance(v, list) for v in vals.values()):
                                 continue
-                            rkw = None
-                            if extra is not None:
+                            rkws = []
+                            for extra in extras:
                                 rkw = attr[extra][1]
+                                rkws.append(rkw)
                                 vals[rkw] = _sample(q.vr_of(rkw), rkw)
                             # what PS3.4 C.4.1.1.3.1 / C.4.2.1.4 / C.4.3.1.3.1 say about this identifier
                             keys = [k for k in vals if k != "QueryRetrieveLevel"]
-                            if retrieve and rkw is not None:
-                                if not present or qlevel not in levels or levels.index(extra) > levels.index(qlevel):
+                            if retrieve and rkws:
+                                if not present or qlevel not in levels or any(levels.index(extra) > levels.index(qlevel) for extra in extras):
                                     continue  # a retrieve identifier made of required keys only / below the level: not decided here
-                                keys.remove(rkw)  # C.2.2.1.2: required keys are not part of a retrieve
+                                for rkw in rkws:
+                                    keys.remove(rkw)  # C.2.2.1.2: required keys are not part of a retrieve
                             valid = qlevel in levels and bool(keys)
                             if valid:
                                 qi = levels.index(qlevel)
